@@ -60,6 +60,9 @@ pub struct BindContext<'a> {
     funcs: HashMap<String, &'a RsCelFunction>,
     macros: HashMap<String, &'a RsCelMacro>,
     types: HashMap<String, CelValue>,
+    // set for the context the compiler folds constants with: nothing can be bound
+    // in it yet, so reading an unbound identifier must abort the fold
+    compile_time: bool,
 }
 
 impl<'a> BindContext<'a> {
@@ -70,6 +73,7 @@ impl<'a> BindContext<'a> {
             funcs: HashMap::new(),
             macros: HashMap::new(),
             types: HashMap::new(),
+            compile_time: false,
         };
 
         load_default_macros(&mut ctx);
@@ -84,6 +88,7 @@ impl<'a> BindContext<'a> {
             funcs: HashMap::new(),
             macros: HashMap::new(),
             types: HashMap::new(),
+            compile_time: true,
         };
 
         load_compile_macros(&mut ctx);
@@ -154,6 +159,10 @@ impl<'a> BindContext<'a> {
 
     pub(crate) fn get_type(&self, name: &str) -> Option<&CelValue> {
         self.types.get(name)
+    }
+
+    pub(crate) fn is_compile_time(&self) -> bool {
+        self.compile_time
     }
 }
 
